@@ -51,7 +51,12 @@ def metadata(backend: str) -> List[Dict[str, Any]]:
             mds.append({"metadata_type": "add_method_type_info", "type_string": et, "method_name": m, "return_type": rt})
         mds.append({"metadata_type": "add_method_type_info", "type_string": et, "method_name": "vs", "return_type_element": "double", "return_type_collection": "std::vector<double>"})
         mds.append({"metadata_type": "add_method_type_info", "type_string": et, "method_name": "kids", "return_type_element": et, "return_type_collection": f"std::vector<{et}>"})
+    # a user-supplied one-statement C++ function (its code lands in a block of its own with a local `result`)
+    mds.append(USERFN)
     return mds
+
+
+USERFN = {"metadata_type": "add_cpp_function", "name": "vpf", "include_files": [], "arguments": ["x", "y"], "code": ["auto result = x + y;"], "return_type": "double"}
 
 
 def coll_types(backend: str) -> List[Dict[str, str]]:
@@ -403,7 +408,7 @@ class Gen:
         if ty == "double":
             opts += ["div", "pow", "index"]
             if self.allow_fn:
-                opts += ["fn"]
+                opts += ["fn", "userfn"]
             if self.allow_first:
                 opts += ["first"] + ["gfirst"] * self.guard_w
             if self.allow_minmax:
@@ -478,6 +483,14 @@ class Gen:
                 return self.leaf(env, ty)
             self.op("if")
             return {"k": "if", "c": self.scalar(env, depth - 1, "bool"), "a": self.scalar(env, depth - 1, r.choice(NUM)), "b": self.scalar(env, depth - 1, r.choice(NUM))}
+        if c == "userfn":
+            # the user function of the synthetic metadata, often twice in one expression (two snippet blocks side by side)
+            self.op("userfn")
+            one = lambda: {"k": "fn", "f": "vpf", "args": [self.scalar(env, depth - 1, "double"), self.leaf(env, r.choice(NUM))]}
+            if r.random() < 0.5:
+                self.op("userfn")
+                return {"k": "bin", "op": r.choice(["+", "-", "*"]), "a": one(), "b": one()}
+            return one()
         if c == "fn":
             self.op("fn")
             f = r.choice(["sqrt", "sin", "cos", "exp", "fabs"])
